@@ -153,7 +153,7 @@ class C09(Prop):
             tot, model = self._total_by_copy(case['copy'], dom, ms, case['via'])
             tot = float(tot)
             det = dict(total=tot, N=case['N'], oracle=exp, membership=info)
-            if case['qkind'] in FULL_KINDS:
+            if info[0]['used']:
                 out.append(('noise-free-full-rank-total-equals-N', abs(tot - case['N']) <= 1e-6 * case['N'], det))
             else:
                 out.append(('only-inexpressive-queries-total-is-1', tot == 1, det))
